@@ -1800,6 +1800,9 @@ func (p *Parser) parseRightSideExpression(left ast.BooleanExpression, single boo
 			impData.add(chainedImpData)
 			return chained, impData, nil
 		}
+		if p.curToken.Type != token.OR {
+			return nil, nil, NewParseError(p.curToken, fmt.Sprintf("expected '&&', '||' or ')' after boolean expression, but got '%s' instead", p.curToken.Literal))
+		}
 		operator = p.curToken.Type
 		if negated {
 			operator = getNegatedBooleanOperator(p.curToken.Type)
